@@ -2,7 +2,7 @@
 From Coq Require Import QArith.
 From Boreal Require Import Base.Prelude Spec.MathSpec Spec.Digest Spec.Strtol Spec.RangeSpec
   Model.ModFuncs Model.HashMod Model.MathMod Model.StringMod Model.ModFuncsCase
-  Proofs.ModFuncsProofs Proofs.ModFuncsFrag Proofs.ModFuncsToInt Proofs.ModFuncsMath.
+  Proofs.ModFuncsProofs Proofs.ModFuncsFrag Proofs.ModFuncsToInt Proofs.ModFuncsMath Proofs.ModFuncsCrc.
 
 (* ---- arguments: with i64 arguments the checked additions of get_args / offset_length_to_start_end never fail *)
 Theorem C16_args_no_overflow : forall o n,
@@ -59,6 +59,18 @@ Proof. exact cache_consistent. Qed.
 (* ---- checksum32 *)
 Theorem C16_checksum32 : forall l, from_bytes checksum_d l = RInt (Z.of_N (checksum32_ref l)).
 Proof. exact checksum32_correct. Qed.
+
+(* ---- CRC-32: byte-wise table-driven update (crc32fast's contract) = bit-wise reference *)
+Theorem C16_crc32 : forall l, Forall (fun b => b < 256) l ->
+  from_bytes crc_d l = RInt (Z.of_N (crc32_ref l)).
+Proof. exact crc32_correct. Qed.
+
+(* ---- hash over fragmented memory, for every streaming digest *)
+Theorem C16_hash_fragmented : forall d rs o e,
+  streaming d -> (forall st, d_update d st [] = st) -> regions_ok rs -> o <= e ->
+  from_mem d (Frag true rs) o e =
+    match spec_frag rs o (e - o) with Some t => from_bytes d t | None => RUndef end.
+Proof. exact hash_fragmented. Qed.
 
 (* ---- string.to_int = strtoll with full consumption, for every byte string and every base argument *)
 Theorem C16_to_int : forall s b,
@@ -170,3 +182,5 @@ Print Assumptions C16_math_monte_carlo.
 Print Assumptions C16_math_min_max.
 Print Assumptions C16_math_small.
 Print Assumptions C16_math_to_string.
+Print Assumptions C16_crc32.
+Print Assumptions C16_hash_fragmented.
